@@ -107,6 +107,22 @@ def staleAt {α : Type} (g : Graph) (child : Nat → α → α) : Nat → St α 
     | .stale _ => some 0
     | .item _ st' => (staleAt g child f st').map (· + 1)
 
+/-- The caller keeps polling after a `None`: `some x` per yielded item, `none` per stale pop
+(today's code returns `None` there but stays usable); ends when the stack is empty (every later
+poll is `None` again). -/
+def pollTrace {α : Type} (g : Graph) (child : Nat → α → α) : Nat → St α → List (Option (Nat × α))
+  | 0, _ => []
+  | f+1, st =>
+    match next g child st with
+    | .done => []
+    | .panic => []
+    | .stale st' => none :: pollTrace g child f st'
+    | .item x st' => some x :: pollTrace g child f st'
+
+/-- Trailing `none`s trimmed (the harness polls a fixed number of times). -/
+def trimNones {β : Type} (l : List (Option β)) : List (Option β) :=
+  (l.reverse.dropWhile Option.isNone).reverse
+
 /-! ## The three iterators -/
 
 def childU : Nat → Unit → Unit := fun _ _ => ()
